@@ -186,6 +186,16 @@ def run_schedule(F, case, sched, B, log, counters):
         k = sched['kind']
         i = {'dfs': len(pending) - 1, 'bfs': 0, 'rev': len(pending) - 1 if steps % 2 else 0}.get(k, c % len(pending))
         pos, sub, edge = pending.pop(i)
+        if isinstance(edge, tuple):
+            # the pending edge is looked up in the map its parent's replacement returned, now -- possibly many replacements
+            # later (carrying out a derivation step by step in any order needs exactly that)
+            emap, key, snap_ = edge
+            try:
+                edge = emap[key]
+            except KeyError:
+                V('edge-map', ['returned-map-invalid-later'], 'the edge_map returned by an earlier replace_edge no longer contains the rule edge it was returned for')
+            if edge is not snap_ and edge != snap_:
+                V('edge-map', ['returned-map-changed-later'], 'the edge_map returned by an earlier replace_edge maps the rule edge to another host edge than when it was returned')
         ri = sub[0]
         rule = B.rules[ri]
         r = spec['rules'][ri]
@@ -303,10 +313,10 @@ def run_schedule(F, case, sched, B, log, counters):
             cr = spec['rules'][child[0]]
             for kx, ext_idx in enumerate(cr['ext']):
                 union((pos + (j,), ext_idx), (pos, r['edges'][ei]['att'][kx]))
-            pending.append((pos + (j,), child, edge_map[B.edges[(ri, ei)]]))
+            pending.append((pos + (j,), child, (edge_map, B.edges[(ri, ei)], edge_map[B.edges[(ri, ei)]])))
         for ei, e in enumerate(r['edges']):
             edge_image[(pos, ei)] = edge_map[B.edges[(ri, ei)]]
-        del before_nodes, before_edges, after_nodes, after_edges, node_map, edge_map, fresh, imgs
+        del before_nodes, before_edges, after_nodes, after_edges, node_map, fresh, imgs
     # ---- global: composed maps give a bijection model graph -> host graph
     cls = {}
     for key, im in image.items():
@@ -465,6 +475,30 @@ def execute(case):
                 scheds_done.append(json.dumps(order))
                 if case.get('derive') and si == 0:
                     check_derive(F, case, B, None, env.c, log)
+                if si == 0 and (case['seed'] % 4 == 0):
+                    # the same rule objects are used for a second derivation after one right-hand side was edited in place
+                    # (a terminal edge relabelled: node and edge counts and the externals stay as they were)
+                    spec0 = case['spec']
+                    cands = []
+                    for ri_, r_ in enumerate(spec0['rules']):
+                        for ei_, e_ in enumerate(r_['edges']):
+                            if e_['label'] in spec0['terms']:
+                                alts = [t_ for t_, d_ in spec0['terms'].items() if t_ != e_['label'] and d_['type'] == spec0['terms'][e_['label']]['type']]
+                                if alts:
+                                    cands.append((ri_, ei_, sorted(alts)[0]))
+                    if cands:
+                        ri_, ei_, t2 = cands[case['seed'] // 4 % len(cands)]
+                        case2 = dict(case)
+                        case2['spec'] = copy.deepcopy(spec0)
+                        case2['spec']['rules'][ri_]['edges'][ei_]['label'] = t2
+                        rhs_ = B.rules[ri_].rhs
+                        old_e = B.edges[(ri_, ei_)]
+                        rhs_.remove_edge(old_e)
+                        new_e = F.Edge(B.labels[t2], list(old_e.nodes), id=old_e.id if old_e.persist_id else None)
+                        rhs_.add_edge(new_e)
+                        B.edges[(ri_, ei_)] = new_e
+                        env.c.inc('hist.rhs-edited-in-place-then-derived-again')
+                        run_schedule(F, case2, sched, B, log, env.c)
                 for k, v in env.c.items():
                     allc[k] = allc.get(k, 0) + v
                 del B, host, model
